@@ -52,6 +52,8 @@ func init() {
 }
 
 func runC23(c *core.Ctx) {
+	c.Rule("CSVPARSE", "csv: inference and execution parse cells with the same parsers")
+	checkCSVParserAgreement(c, "CSVPARSE")
 	c.Rule("FLOATEXACT", "datasources parse floats exactly")
 	checkExactFloatParsing(c, "FLOATEXACT")
 	c.Rule("SPLIT", "lines: split exactly at the configured separator")
